@@ -7,7 +7,10 @@ replaced in the harness process only — no source file is touched):
 
   tick thread     before each sub-call of `Engine.tick`: `hwl.tick`, `read_process_image`, [lock acquire],
                   `Tracking.tick`, `PInterpreter.tick`, `update_calculated_tags`, `CommandManager.tick`,
-                  `notify_tag_updates`, `write_process_image`
+                  `notify_tag_updates`, `write_process_image`; and *inside* the sub-calls where a tick spends its
+                  time: before the hardware read (`hwl.read_batch`), before every UOD command exec function
+                  (`UodCommand.execute`, in the executing loop of the command manager) and before the hardware write
+                  (`hwl.write_batch`)
   request thread  at the entry of each entry point, at the lock acquire (if the entry point takes the lock) and before
                   its sub-calls `_validate_control_command`, `CommandManager.schedule`, `MethodManager.merge_method`,
                   `MethodManager.set_method`, `MethodManager.parse_inject_code`, `PInterpreter.inject_node`,
@@ -179,6 +182,8 @@ def install() -> None:
     _wrap(CommandManager, "tick", "command_manager.tick", "T")
     _wrap(Engine, "notify_tag_updates", "notify_tag_updates", "T")
     _wrap(Engine, "write_process_image", "write_process_image", "T")
+    from openpectus.lang.exec.uod import UodCommand
+    _wrap(UodCommand, "execute", "uod.execute", "T")            # inside CommandManager.tick's executing loop
     # request entry points and their sub-calls
     for name in ("set_method", "inject_code", "execute_control_command_from_user", "cancel_instruction",
                  "force_instruction"):
@@ -205,6 +210,13 @@ def instrument_engine(engine, coop: Coop) -> None:
             _yp("hwl.tick", "T")
             return hwl._verif_tick()
         hwl.tick = tick
+        for name in ("read_batch", "write_batch"):               # inside read_process_image / write_process_image
+            orig = getattr(hwl, name)
+
+            def batch(*a, _orig=orig, _name=name, **k):
+                _yp("hwl." + _name, "T")
+                return _orig(*a, **k)
+            setattr(hwl, name, batch)
 
 
 def run_schedule(coop: Coop, choices: str, workers: dict[str, Callable[[], Any]]) -> tuple[str, list[list[str]]]:
